@@ -487,3 +487,4 @@ def r4(chk, repo, d):
 # added rules (appended to the explanation the evidence file carries)
 EXPLANATION += (" " + 'Added during the build (DESIGN.md 4.31, second table): (R06.4) every fmt_addr hands the declared format on unchanged (abstract execution, 10 formats); (R06.6) TheDict.lookup yields the map element itself (fresh object, base register 0, offset 0 on every path).')
 EXPLANATION += (" Added after wave 8: an attribute read by the atomic lowering is never switched off by a parameter of that name either (defaults and keyword arguments other than True or the caller's own setting).")
+EXPLANATION += (' Added after wave 9: along every path of Memory._set the value stored or added is computed at the width of the variable.')
